@@ -15,4 +15,5 @@ CONSTANTS
   MaxOps = 11
   Dev = "none"
 INVARIANTS Distinct Increasing BelowServer ReservedFresh ExtraInByte
+SYMMETRY PermsC
 CHECK_DEADLOCK FALSE
